@@ -104,6 +104,7 @@ Plan parse_plan(const std::string &text) {
             p.ethpad = kv.u64("ethpad", 0);
             p.read0 = atof(kv.str("read0", "0").c_str());
             p.clkgran = kv.u64("clkgran", 1);
+            p.cantxq = kv.u64("cantxq", 0);
         } else if (kv.op == "can") {
             CanW w;
             w.t = kv.u64("t");
@@ -114,6 +115,7 @@ Plan parse_plan(const std::string &text) {
             w.c.len = (uint8_t)kv.u64("len");
             w.c.flags = (uint8_t)kv.u64("ff", 0);
             w.c.fd = kv.has("ff");
+            w.c.dlc8 = (uint8_t)kv.u64("dlc8", 0);
             auto d = sim::unhex(kv.str("data"));
             memcpy(w.c.data, d.data(), std::min<size_t>(d.size(), 64));
             w.c.tag = p.can.size();
@@ -423,6 +425,8 @@ static void apply_transport(RunState &rs, int node, Frame &f) {
     bool faulty = dropped || cur.damaged || !dup_delays.empty() || extra_delay;
     if (faulty && w.nodes.size() > 2) w.deliver(f, base, -1, rs.listener);
     for (auto &c : copies) {
+        // like fresh sends, delayed or duplicated copies no longer arrive in the drain interval before the end of the run
+        if (w.now + c.delay + p.drain > w.t_origin + p.tend) { w.count("fault.copy_beyond_end_not_delivered"); continue; }
         if (c.f.damaged) w.log("damaged", c.f.id, c.f.data.size(), c.f.data.data(), c.f.data.size());
         if (faulty && w.nodes.size() > 2) w.deliver(c.f, c.delay, rs.listener, -1);
         else w.deliver(c.f, c.delay);
@@ -450,6 +454,7 @@ void exec_plan(const std::string &text, bool verbose) {
     w.lat_lo = p.lat_lo; w.lat_hi = p.lat_hi; w.cost_lo = p.cost_lo; w.cost_hi = p.cost_hi;
     w.rxq_cap = p.qcap;
     w.can_read0_p = p.read0;
+    w.can_txq_cap = p.cantxq;
     w.clock_gran = p.clkgran ? p.clkgran : 1;
     w.t_origin = 1700000000ULL * 1000000000ULL + (p.rseed % 1000000007ULL) * 1000ULL;
     w.now = w.t_origin;
@@ -477,6 +482,14 @@ void exec_plan(const std::string &text, bool verbose) {
         if (c19) violation(strf("crash:step-budget:%s", fn.c_str()), strf("%s made more than %llu system calls handling one datagram", n.name.c_str(), (unsigned long long)g_rs->w->call_budget));
         violation(strf("step-budget:%s", fn.c_str()), strf("%s made more than %llu system calls after receiving frame#%llu without returning to recv/poll",
                                                            n.name.c_str(), (unsigned long long)g_rs->w->call_budget, (unsigned long long)n.handler_frame));
+    };
+    w.hooks.on_stack_growth = [c19](World &w, int node, uint64_t bytes, unsigned times) {
+        Node &n = w.nodes[node];
+        n.in_handler = false;
+        violation(strf("%sstack-growth:%s", c19 ? "crash:" : "", n.prog.c_str()),
+                  strf("%s is %llu bytes deeper in its stack when it waits for the next datagram than when it waited for the first one, after growing %u times (%llu datagrams received): "
+                       "stack is not released between datagrams, the process dies when it runs out",
+                       n.name.c_str(), (unsigned long long)bytes, times, (unsigned long long)g_rs->recv_total));
     };
     // ---- hooks
     w.hooks.on_can_read = [](World &, int node, const CanRec &c) {
@@ -575,16 +588,34 @@ void exec_plan(const std::string &text, bool verbose) {
     if (p.quiet_t) w.at(w.t_origin + p.quiet_t, [&w] {
         g_rs->quiet = true;
         w.rxq_cap = 4096;
+        w.can_txq_cap = 0;
         for (auto &n : w.nodes) n.stall_until = 0;  // faults stop here
         w.log("phase-quiet");
     });
 
     w.run(w.t_origin + p.tend, 4000000);
+    if (!c19 && p.scen != "crfT" && rs.listener >= 0) {
+        // A handler that happens to be in progress at the cut-off instant (its own presentation timer fired a few microseconds
+        // earlier) is allowed to finish: the cut-off is the simulator's, not the listener's. Bounded by the step/call budgets.
+        for (int k = 0; k < 200; k++) {
+            sim::Task *lt = w.tasks.get(w.nodes[rs.listener].task);
+            if (!lt || lt->state != sim::Task::RUNNABLE) break;
+            w.count("ev.grace_slice_at_end");
+            w.run(w.now + 50000, 8000000);
+        }
+    }
 
     // ---- final oracle
     sim::RunResult r;
     if (c19) {
         c19_final_check(rs);
+        // the talker end: every frame the bus delivered has been read, and all but an incomplete last batch has been sent
+        if (rs.pending_cargo.size() >= (size_t)std::max(1, p.count))
+            violation("frame-count:unsent", strf("the talker read %zu frames that it never sent (it sends after every %d frames); %llu datagrams sent",
+                                                 rs.pending_cargo.size(), p.count, (unsigned long long)w.nodes[0].sent));
+        for (auto &e : w.fds)
+            if (e.kind == FdEnt::CAN && e.node == 0 && !e.canq.empty())
+                violation("frame-count:unread", strf("%zu frames are still waiting on the talker's CAN socket at the end of the run", e.canq.size()));
         r = base_result(w);
         r.nontrivial = !rs.expected.empty();
     } else {
